@@ -12,7 +12,7 @@ use tokio::sync::broadcast;
 use tokio::sync::mpsc::{self, UnboundedReceiver, UnboundedSender};
 
 use std::collections::HashSet;
-use std::sync::{Arc, RwLock};
+use std::sync::{Arc, Mutex, RwLock};
 
 use scru128::Scru128Id;
 
@@ -174,6 +174,7 @@ pub struct Store {
     idx_topic: PartitionHandle,
     idx_context: PartitionHandle,
     contexts: Arc<RwLock<HashSet<Scru128Id>>>,
+    append_lock: Arc<Mutex<()>>,
     broadcast_tx: broadcast::Sender<Frame>,
     gc_tx: UnboundedSender<GCTask>,
 }
@@ -212,6 +213,7 @@ impl Store {
             idx_topic: idx_topic.clone(),
             idx_context: idx_context.clone(),
             contexts: Arc::new(RwLock::new(contexts)),
+            append_lock: Arc::new(Mutex::new(())),
             broadcast_tx,
             gc_tx,
         };
@@ -489,6 +491,10 @@ impl Store {
     }
 
     pub fn append(&self, mut frame: Frame) -> Result<Frame, crate::error::Error> {
+        // Serialize appends: id assignment, commit and broadcast happen as one step, so
+        // ids become visible (stored and broadcast) in strictly increasing order.
+        let _append_guard = self.append_lock.lock().unwrap();
+
         frame.id = scru128::new();
 
         // Special handling for xs.context registration
